@@ -35,6 +35,8 @@ type Mutant struct {
 	Why    string
 	// Edits: additional replacements (two cooperating sites)
 	More []Edit
+	// PatchFile: a unified diff applied in memory instead of Old/New (seeded/ and benign/ patches)
+	PatchFile string
 }
 
 type Edit struct {
@@ -57,6 +59,11 @@ func mutantsFor(prop string) []Mutant {
 			out = append(out, m)
 		}
 	}
+	for _, m := range patchMutants(verifDir()) {
+		if m.forProp(prop) {
+			out = append(out, m)
+		}
+	}
 	return out
 }
 
@@ -64,6 +71,13 @@ func mutantOverlay(repo, prop, name string) (map[string][]byte, error) {
 	for _, m := range mutantsFor(prop) {
 		if m.Name != name {
 			continue
+		}
+		if m.PatchFile != "" {
+			b, err := os.ReadFile(m.PatchFile)
+			if err != nil {
+				return nil, err
+			}
+			return applyPatch(repo, parseUnifiedDiff(string(b)))
 		}
 		ov := map[string][]byte{}
 		edits := append([]Edit{{m.File, m.Old, m.New}}, m.More...)
@@ -127,7 +141,7 @@ func runSelfTest(prop, repo string, r *Run) map[string]interface{} {
 			case code == 2 || code < 0:
 				rs.status, rs.detail = "broken", "variant could not be analysed (does it compile?): "+lastLines(out, 3)
 			case m.Kind == "breaking":
-				hit := false
+				hit := m.Expect == "*" && len(keys) > 0
 				for _, k := range keys {
 					if k == m.Expect || (strings.HasSuffix(m.Expect, "*") && strings.HasPrefix(k, strings.TrimSuffix(m.Expect, "*"))) {
 						hit = true
